@@ -99,9 +99,8 @@ func init() {
 	}
 	ndHandlers["vObserve"] = func(fr *frame, args []value) value {
 		ps := fr.i.ps
-		s := concStr(fr, args[0])
-		if len(ps.observed) < 200 {
-			ps.observed = append(ps.observed, s)
+		if len(ps.observed) < 400 {
+			ps.observed = append(ps.observed, args[0])
 		}
 		return nil
 	}
